@@ -30,7 +30,7 @@ def rnd_features(seq, rng, nmax=4, cites=0, marks=()):
         if cites and rng.random() < 0.6:
             f["cites"] = rnd_cites(rng, cites)
         if rng.random() < 0.12:
-            f["fuzzy"] = rng.choice(["within", "oneof", "between", "open"])
+            f["fuzzy"] = rng.choice(["within", "oneof", "open"])      # (a between-position as the START of a range does not survive Biopython's GenBank writer/reader)
         feats.append(f)
     return feats
 
